@@ -96,10 +96,26 @@ func hostID(h string) int64 {
 	return int64(g*100 + j)
 }
 func (s *spec) wrapID() int64 {
-	if s.wrap == 5 {
+	switch s.wrap {
+	case 5:
 		return 1000 + int64(10+s.id)
+	case 6: // stack [Hex, Base64]
+		return stackID([]int64{1, 4})
+	case 7: // stack [CBK(10+id), Zlib, Base64]: the stack of THIS group (own key byte)
+		return stackID([]int64{1000 + int64(10+s.id), 2, 4})
+	case 8: // stack [Base64, CBK(10+id)]
+		return stackID([]int64{4, 1000 + int64(10+s.id)})
 	}
 	return int64(s.wrap)
+}
+
+// stackID identifies a MultiWrapper by its elements in order (injective for the ids used here).
+func stackID(ids []int64) int64 {
+	v := int64(7)
+	for _, x := range ids {
+		v = v*4099 + x
+	}
+	return 1000000 + v
 }
 func (s *spec) transID() int64 {
 	switch s.trans {
@@ -144,6 +160,12 @@ func (s *spec) settings() []cfg.Setting {
 		v = append(v, cfg.WrapBase64)
 	case 5:
 		v = append(v, cfg.WrapCBK(byte(10+s.id), 2, 3, 4))
+	case 6:
+		v = append(v, cfg.WrapHex, cfg.WrapBase64)
+	case 7:
+		v = append(v, cfg.WrapCBK(byte(10+s.id), 2, 3, 4), cfg.WrapZlib, cfg.WrapBase64)
+	case 8:
+		v = append(v, cfg.WrapBase64, cfg.WrapCBK(byte(10+s.id), 2, 3, 4))
 	}
 	switch s.trans {
 	case 1:
@@ -214,7 +236,7 @@ func genSpec(id int, weight int, sel int, rich bool) *spec {
 	s.sleep = time.Duration(1000+id) * time.Millisecond
 	s.jitter = 10 + id
 	if rich {
-		s.wrap = rng.Intn(6)
+		s.wrap = rng.Intn(9)
 		s.trans = rng.Intn(3)
 		switch rng.Intn(4) {
 		case 0:
@@ -259,6 +281,12 @@ func wrapObs(w cfg.Wrapper) int64 {
 		return 0
 	case wrapper.CBK:
 		return 1000 + int64(v[0])
+	case cfg.MultiWrapper:
+		ids := make([]int64, len(v))
+		for i := range v {
+			ids[i] = wrapObs(v[i])
+		}
+		return stackID(ids)
 	}
 	switch {
 	case w == cfg.Wrapper(wrapper.Hex):
